@@ -19,6 +19,13 @@ no_helper_symbols is demanded unchanged); it is flattened for yield_is_tokens an
 named s1, .. (nodes_are_user_productions: the template is the production the user supplied).
 Supporting (diagnostic only; not in the statement and false for ambiguous grammars on the unchanged
 tree): when both settings return a tree, the trees are equal.
+Calls are not independent experiments: one parser object serves many calls and the tree it returns is a
+mutable object that the caller owns (LLParser.cleanup(tree) is the documented in-place rewrite of a tree
+parsed with do_cleanup=False).  The statement says 'WHENEVER parse returns a tree', so for every input for
+which the first raw parse returns a tree the driver continues the session on the same parser: the returned
+tree is edited in place (parser.cleanup(tree) and/or overwritten by the harness), the SAME text is parsed
+raw again, then parsed with do_cleanup=True, then raw once more; every raw tree returned in the session must
+satisfy all four clauses on its own (failure class 'on-reparse' of each clause).
 The oracle is `check_tree` below (DESIGN.md D.1 `valid_derivation`, written without the parser).
 Non-termination / rejection / ParsingError are not C01's business: calls are guarded by a CPU-time
 budget and such cases are skipped.
@@ -30,6 +37,7 @@ import os
 import re
 import signal
 import sys
+import zlib
 
 from ak import llparser
 
@@ -57,6 +65,12 @@ REQUIRED_REACH = [
     'custom-skip-set',
     'sequence-node',
     'sequence-reparsed-at-later-token-after-rollback',
+    'raw-reparse-of-same-text-after-documented-cleanup-of-returned-tree',
+    'raw-reparse-of-same-text-after-returned-tree-was-overwritten',
+    'raw-reparse-of-same-text-after-do-cleanup-parse',
+    'other-kind-token-carries-keyword-text',
+    'other-kind-token-and-keyword-reading-both-derivable',
+    'same-text-is-keyword-of-two-token-kinds',
 ]
 
 
@@ -308,13 +322,118 @@ def _suffix_syms(parser):
         return set()
 
 
-def eval_input(parsers, G, start, terminals, finfo, lexname, toks, seps, SEQ=None):
+def snapshot(t, _n=None):
+    """implementation-neutral picture of whatever object graph hangs below t (used only to see whether an
+    in-place edit changed the tree; never part of a verdict)"""
+    n = _n if _n is not None else [0]
+    n[0] += 1
+    if n[0] > MAX_NODES:
+        return '...'
+    if isinstance(t, llparser.TElement):
+        v = t.value
+        return (t.name, [snapshot(c, n) for c in v] if isinstance(v, (list, tuple)) else repr(v))
+    if isinstance(t, (list, tuple)):
+        return [snapshot(c, n) for c in t]
+    return repr(t)
+
+
+def overwrite_tree(root):
+    """an in-place edit of a returned tree by its owner: every node reachable from the root is renamed, the
+    child lists are emptied (the list objects themselves, too) and the values dropped"""
+    todo, n = [root], 0
+    while todo and n < MAX_NODES:
+        t = todo.pop()
+        n += 1
+        if not isinstance(t, llparser.TElement):
+            continue
+        v = t.value
+        if isinstance(v, list):
+            todo.extend(v)
+            del v[:]
+        t.name = 'overwritten-by-the-caller'
+        t.value = None
+
+
+SESSION_VARIANTS = ('cleanup', 'overwrite', 'cleanup+overwrite')
+
+
+def continue_session(parser, text, first, G, start, terminals, exp, SEQ, smart):
+    """the first raw parse of `text` returned the tree `first` (already checked).  Continue on the same parser:
+    edit `first` in place, parse the same text raw again, parse it with do_cleanup=True, parse it raw again.
+    -> (fails, events, diags, number of parse calls)"""
+    fails, events, diags = [], set(), []
+    variant = SESSION_VARIANTS[(len(text) + len(exp)) % 3]
+    before = snapshot(first)
+    if 'cleanup' in variant:
+        st, r = guarded(lambda: parser.cleanup(first), PARSE_BUDGET_S)
+        if st != 'ok':
+            diags.append(('cleanup-fails',
+                          f"parser.cleanup(tree of {text!r}) " + ('exceeds the budget' if st == 'budget' else
+                          f"raises {type(r).__name__}: {str(r)[:100]}") + f" [smart_factorization={smart}]"))
+    cleaned = snapshot(first) != before
+    if 'overwrite' in variant:
+        overwrite_tree(first)
+    changed = snapshot(first) != before
+    calls = 0
+    steps = [('raw', f"parse raw; {variant} of the returned tree; parse the same text raw again")]
+    steps.append(('clean', None))
+    steps.append(('raw', f"parse raw; {variant} of the returned tree; parse raw; parse with do_cleanup=True; "
+                         f"parse the same text raw again"))
+    after_clean = False
+    for kind, what in steps:
+        calls += 1
+        if kind == 'clean':
+            st, r = guarded(lambda: parser.parse(text, do_cleanup=True), PARSE_BUDGET_S)
+            after_clean = st == 'ok'
+            continue
+        st, r = guarded(lambda: parser.parse(text, do_cleanup=False), PARSE_BUDGET_S)
+        if st == 'budget':
+            # the first call of this very parse stayed within the budget: an overrun here is most likely CPU time
+            # stolen on an overloaded machine; one more attempt with a larger budget before giving up
+            calls += 1
+            st, r = guarded(lambda: parser.parse(text, do_cleanup=False), 4 * PARSE_BUDGET_S)
+        if st != 'ok':
+            diags.append(('reparse-no-tree',
+                          f"parse({text!r}) returned a tree, the same call repeated on the same parser "
+                          + ('exceeds the budget' if st == 'budget' else f"raises {type(r).__name__}")
+                          + f" [smart_factorization={smart}] (supporting: acceptance is C02's business)"))
+            continue
+        f, dump, ev = check_tree(r, G, start, terminals, exp, SEQ)
+        if f is None:
+            diags.append(('non-tree-result', f"repeated parse({text!r}) returned {type(r).__name__}, not a "
+                                             f"TElement [smart_factorization={smart}]"))
+            continue
+        for clause, cls, t in f:
+            # one class per clause: what failed is 'the tree returned by a REPEATED call', whatever its shape
+            fails.append((clause, 'on-reparse',
+                          f"({cls}) {t} [smart_factorization={smart}; calls on one parser: {what}]"))
+        if after_clean:
+            events.add('raw-reparse-of-same-text-after-do-cleanup-parse')
+        else:
+            if cleaned:
+                events.add('raw-reparse-of-same-text-after-documented-cleanup-of-returned-tree')
+                if any(e[0] == 'seq' and e[3] for e in ev if isinstance(e, tuple)):
+                    events.add('sequence-tree-cleaned-up-then-same-text-reparsed')
+            if changed and 'overwrite' in variant:
+                events.add('raw-reparse-of-same-text-after-returned-tree-was-overwritten')
+    return fails, events, diags, calls
+
+
+SESSION_EVERY = {'all': 1, 'sampled': 4}
+
+
+def eval_input(parsers, G, start, terminals, finfo, lexname, toks, seps, SEQ=None, sessions='all'):
     """parse one input with every accepted setting (caller silences stdout/stderr).
+    sessions: 'all' = the session is continued (see continue_session) after every first parse that returns a
+    tree, 'sampled' = for the texts whose CRC-32 is a multiple of 4 (quick tier).
     -> dict(fails, events, diags, status per setting, text)"""
     text = gen.make_text(toks, seps)
     exp = [(t[0], t[1]) for t in toks]          # a token is [name, value] or [name, value, text]
     L = gen.LEXICONS[lexname]
-    out = {'fails': [], 'events': set(), 'diags': [], 'status': {}, 'text': text}
+    out = {'fails': [], 'events': set(), 'diags': [], 'status': {}, 'text': text, 'reparses': 0,
+           'other_kind': []}
+    if L.get('kwother'):
+        out['other_kind'] = gen.other_kind_keyword_readings(lexname, text)
     dumps = {}
     for smart, parser in parsers.items():
         STATE['rb_children'] = 0
@@ -387,6 +506,19 @@ def eval_input(parsers, G, start, terminals, finfo, lexname, toks, seps, SEQ=Non
             ev.add('skipped-token-in-input')
             if 'skip_tokens' in L['kwargs']:
                 ev.add('custom-skip-set')
+        if out['other_kind']:
+            ev.add('other-kind-token-carries-keyword-text')
+            if any(exp[i][0] in L['kw'] for i, _ in out['other_kind']):
+                ev.add('same-text-is-keyword-of-two-token-kinds')
+        # ---- the session goes on: the returned tree is edited in place, the same text is parsed again
+        # (not when the first tree is already wrong: the repeated calls would only report the same defect again)
+        if fails or zlib.crc32(text.encode()) % SESSION_EVERY[sessions]:
+            continue
+        f2, e2, d2, calls = continue_session(parser, text, res, G, start, terminals, exp, SEQ, smart)
+        out['fails'] += f2
+        ev |= e2
+        out['diags'] += d2
+        out['reparses'] += calls
     if len(dumps) == 2 and None not in dumps.values() and dumps[False] != dumps[True]:
         # Supporting only: not in the property statement, and false on the unchanged tree for ambiguous
         # grammars (smart mode un-factorizes Y -> a Y__S00 to Y -> a | a a; alternatives of a completed
@@ -405,11 +537,11 @@ def eval_input(parsers, G, start, terminals, finfo, lexname, toks, seps, SEQ=Non
     return out
 
 
-def explore_grammar(gs, maxlen, inputs_cache):
+def explore_grammar(gs, maxlen, inputs_cache, sessions='all'):
     """gs: concrete grammar spec dict(lex, prods, start, none, terms, fam).  -> result dict"""
     lex, prods, start = gs['lex'], gs['prods'], gs['start']
     G, SEQ = split_grammar(prods)
-    res = {'status': 'accepted', 'parses': 0, 'trees': 0, 'rejected': 0, 'budget': 0, 'raised': 0,
+    res = {'status': 'accepted', 'parses': 0, 'reparses': 0, 'trees': 0, 'rejected': 0, 'budget': 0, 'raised': 0,
            'events': {}, 'fails': {}, 'diags': [], 'ctor': None}
     parsers = {}
     ctor_exc = {}
@@ -446,14 +578,20 @@ def explore_grammar(gs, maxlen, inputs_cache):
     kwsyn = L.get('kwsyn', {})
     derived = set()         # token-name strings with a keyword-on-synonym token for which a tree was returned
     derived_plain = set()   # token-name strings for which a tree was returned
+    kwother = bool(L.get('kwother'))
+    other_readings = set()  # token-name strings obtained from an input for which a tree was returned by reading
+    #                         a token of another kind that carries a keyword's text as that keyword
     for toks, seps in inputs_cache[key]:
         with quiet():
-            o = eval_input(parsers, G, start, terminals, finfo, lex, toks, seps, SEQ)
-        if kwsyn and 'tree' in o['status'].values():
+            o = eval_input(parsers, G, start, terminals, finfo, lex, toks, seps, SEQ, sessions)
+        if (kwsyn or kwother) and 'tree' in o['status'].values():
             w = tuple(t[0] for t in toks)
             derived_plain.add(w)
             if any(n in kwsyn for n in w):
                 derived.add(w)
+            for i, kt in o['other_kind']:
+                other_readings.add(w[:i] + (kt,) + w[i + 1:])
+        res['reparses'] += o['reparses']
         for smart, st in o['status'].items():
             res['parses'] += 1
             if st == 'tree':
@@ -486,6 +624,10 @@ def explore_grammar(gs, maxlen, inputs_cache):
     if any(n in kwsyn and w[:i] + (kwsyn[n],) + w[i + 1:] in derived_plain
            for w in sorted(derived) for i, n in enumerate(w)):
         hit('keyword-and-plain-reading-both-derivable')
+    # reach: the grammar derives an input in which a token of ANOTHER kind carries a keyword's text, and also the
+    # same input with the keyword at that place - a tokenizer that looks keywords up by the text alone gets a tree
+    if other_readings & derived_plain:
+        hit('other-kind-token-and-keyword-reading-both-derivable')
     return res
 
 
@@ -515,11 +657,11 @@ def _work_init():
 
 
 def _work(args):
-    lo, chunk, maxlen = args
+    lo, chunk, maxlen, sessions = args
     out = []
     for j, g in enumerate(chunk):
         gs = concrete_spec(lo + j, g)
-        r = explore_grammar(gs, maxlen, _W['cache'])
+        r = explore_grammar(gs, maxlen, _W['cache'], sessions)
         r['case'] = {'lex': gs['lex'], 'prods': gs['prods'], 'start': gs['start'], 'none': gs['none'],
                      'inputs': f"all token strings of length <= {maxlen} over {gs['terms']}"}
         r['fam'] = gs['fam']
@@ -531,7 +673,8 @@ def run(b):
     maxlen = 4 if b.tier == 'quick' else 5
     plan = gen.build_plan(b.tier, b.seed)
     chunk = 40
-    jobs = [(lo, plan[lo:lo + chunk], maxlen) for lo in range(0, len(plan), chunk)]
+    sessions = 'sampled' if b.tier == 'quick' else 'all'
+    jobs = [(lo, plan[lo:lo + chunk], maxlen, sessions) for lo in range(0, len(plan), chunk)]
     install_hooks()
     if _HOOK['orig'] is None:
         b.diag("observation hook on _StackElement.switch_to_next_prod could not be installed "
@@ -553,7 +696,7 @@ def run(b):
 def _record(b, r, stats):
     fam = r['fam']
     s = stats.setdefault(fam, {'grammars': 0, 'accepted': 0, 'ctor-rejected': 0, 'abandoned': 0,
-                               'parses': 0, 'trees': 0, 'rejected': 0, 'budget': 0, 'raised': 0})
+                               'parses': 0, 'reparses': 0, 'trees': 0, 'rejected': 0, 'budget': 0, 'raised': 0})
     s['grammars'] += 1
     if r['status'] == 'ctor-rejected':
         s['ctor-rejected'] += 1
@@ -563,11 +706,11 @@ def _record(b, r, stats):
         if r['status'] != 'accepted':
             s['abandoned'] += 1
             b.hit('grammar-abandoned-after-budget-overruns')
-    for k in ('parses', 'trees', 'rejected', 'budget', 'raised'):
+    for k in ('parses', 'reparses', 'trees', 'rejected', 'budget', 'raised'):
         s[k] += r[k]
     nontrivial = r['status'] != 'ctor-rejected' and r['trees'] > 0 and r['rejected'] > 0
     b.case(r['case'], nontrivial=nontrivial)
-    b.count(r['parses'])
+    b.count(r['parses'] + r['reparses'])
     for e, n in r['events'].items():
         b.hit(e, n)
     dc = b.notes.setdefault('diag_counts', {})
